@@ -35,6 +35,13 @@ def regexHandle : List Sexp → Option Sexp
       | none => pure (.atom "bad-pattern")
       | some pr => pure (.list [ofNat pr.ngroups, .list (pr.names.map (fun (n, i) => .list [.str n, ofNat i])),
                                ofBool pr.re.Simple])
+  | [.atom "reast", ci, ml, da, .str p] => do
+      let ci ← ci.bool?
+      let ml ← ml.bool?
+      let da ← da.bool?
+      match parseL ⟨ci, ml, da⟩ p.toList with
+      | none => pure (.atom "bad-pattern")
+      | some pr => pure (.str (toString (repr pr)))
   | _ => none
 
 end PP.Driver
